@@ -3,8 +3,10 @@
 // loader callbacks block on channels, so that the harness decides when a creator finishes its
 // load while other goroutines run getOrCreate/wait, Cleanup, Rotate, Release ... in between.
 // Every event is executed to a stable point (goroutine returned / parked in its loader /
-// blocked in wg.Wait, detected through the WaitsTotal metric), then the package state is
-// observed; the event list and the observations become one Coq case (props/C18/coq/CaseDefs.v).
+// blocked in wg.Wait, detected through the WaitsTotal metric / parked inside
+// Metrics.ReattemptsTotal.Inc(), i.e. between a waiter's wake-up after a failed load and its
+// re-lock in getOrCreate), then the package state is observed; the event list and the
+// observations become one Coq case (props/C18/coq/CaseDefs.v).
 package main
 
 import (
